@@ -552,13 +552,15 @@ IssueW(x, op0) ==
       [] n = "ins" -> [w |-> x, ret |-> IF op[2] \in x.aliveE THEN 1 ELSE 0]
       [] n \in {"mut", "noreact"} ->
             IF x.comp[<<op[2], op[3]>>] # 0 THEN [w |-> [x EXCEPT !.comp[<<op[2], op[3]>>] = op[4]], ret |-> 1] ELSE [w |-> x, ret |-> -1]
+      \* the harness' component and resource types compare equal when their values agree modulo 100 (a PartialEq coarser than identity):
+      \* set_if_neq must neither store nor trigger for an equal but distinguishable value
       [] n = "set" ->
             LET cur == x.comp[<<op[2], op[3]>>]
-            IN IF cur # 0 /\ cur # op[4] THEN [w |-> [x EXCEPT !.comp[<<op[2], op[3]>>] = op[4]], ret |-> cur] ELSE [w |-> x, ret |-> -1]
+            IN IF cur # 0 /\ (cur % 100) # (op[4] % 100) THEN [w |-> [x EXCEPT !.comp[<<op[2], op[3]>>] = op[4]], ret |-> cur] ELSE [w |-> x, ret |-> -1]
       [] n \in {"resmut", "resno"} -> [w |-> [x EXCEPT !.res[op[2]] = op[3]], ret |-> 0]
       [] n = "resset" ->
             LET cur == x.res[op[2]]
-            IN IF cur # op[3] THEN [w |-> [x EXCEPT !.res[op[2]] = op[3]], ret |-> cur] ELSE [w |-> x, ret |-> -1]
+            IN IF (cur % 100) # (op[3] % 100) THEN [w |-> [x EXCEPT !.res[op[2]] = op[3]], ret |-> cur] ELSE [w |-> x, ret |-> -1]
       [] n \in {"rm", "desp", "desprec"} -> [w |-> x, ret |-> IF op[2] \in x.aliveE THEN 1 ELSE 0]
       [] n \in {"xrm", "xdesp", "xdesprec"} -> [w |-> x, ret |-> 1]
       [] n = "despsys" -> [w |-> x, ret |-> IF op[2] \in x.alive THEN 1 ELSE 0]
@@ -586,6 +588,7 @@ IssueW(x, op0) ==
 
 (* the ops a free body may issue next; `go(op)` is the continuation *)
 EBundles(e) == { << <<"emut", e, 1>> >>, << <<"eev", e, 1>> >>, << <<"emut", e, 1>>, <<"eev", e, 1>> >> }
+SetVals == IF "coarse" \in Features THEN (1..NVal) \cup { 100 + v : v \in 1..NVal } ELSE 1..NVal
 DirectOps == {"xrm", "xdesp", "xdesprec", "xbc", "xeev", "xsysev"}
 NeedAccess == {"resmut", "resset", "resno", "mut", "set", "noreact", "wadd", "wrem", "wrun", "eadd", "erem", "sysevsig", "smut", "sset", "sno"}
 FreeOp(x, cur, OpNames_, go(_)) ==
@@ -596,11 +599,11 @@ FreeOp(x, cur, OpNames_, go(_)) ==
     \/ "eev" \in OpNames_ /\ \E e \in Ents, t \in Tys : go(<<"eev", e, t, x.nextP>>)
     \/ "res" \in OpNames_ /\ \E t \in Tys : go(<<"res", t>>)
     \/ "resmut" \in OpNames_ /\ \E t \in Tys, v \in 1..NVal : go(<<"resmut", t, v>>)
-    \/ "resset" \in OpNames_ /\ \E t \in Tys, v \in 1..NVal : go(<<"resset", t, v>>)
+    \/ "resset" \in OpNames_ /\ \E t \in Tys, v \in SetVals : go(<<"resset", t, v>>)
     \/ "resno" \in OpNames_ /\ \E t \in Tys, v \in 1..NVal : go(<<"resno", t, v>>)
     \/ "ins" \in OpNames_ /\ \E e \in Ents, t \in Tys, v \in 1..NVal : go(<<"ins", e, t, v>>)
     \/ "mut" \in OpNames_ /\ \E e \in Ents, t \in Tys, v \in 1..NVal : go(<<"mut", e, t, v>>)
-    \/ "set" \in OpNames_ /\ \E e \in Ents, t \in Tys, v \in 1..NVal : go(<<"set", e, t, v>>)
+    \/ "set" \in OpNames_ /\ \E e \in Ents, t \in Tys, v \in SetVals : go(<<"set", e, t, v>>)
     \/ "noreact" \in OpNames_ /\ \E e \in Ents, t \in Tys, v \in 1..NVal : go(<<"noreact", e, t, v>>)
     \/ "trig" \in OpNames_ /\ \E e \in Ents, t \in Tys : go(<<"trig", e, t>>)
     \/ "rm" \in OpNames_ /\ \E e \in Ents, t \in Tys : go(<<"rm", e, t>>)
@@ -613,7 +616,7 @@ FreeOp(x, cur, OpNames_, go(_)) ==
     \/ "xbc" \in OpNames_ /\ \E t \in Tys : go(<<"xbc", t, x.nextP>>)
     \/ "xeev" \in OpNames_ /\ \E e \in Ents, t \in Tys : go(<<"xeev", e, t, x.nextP>>)
     \/ "smut" \in OpNames_ /\ \E e \in Ents, t \in Tys, v \in 1..NVal : Holders(x, t) = {e} /\ go(<<"smut", e, t, v>>)
-    \/ "sset" \in OpNames_ /\ \E e \in Ents, t \in Tys, v \in 1..NVal : Holders(x, t) = {e} /\ go(<<"sset", e, t, v>>)
+    \/ "sset" \in OpNames_ /\ \E e \in Ents, t \in Tys, v \in SetVals : Holders(x, t) = {e} /\ go(<<"sset", e, t, v>>)
     \/ "sno" \in OpNames_ /\ \E e \in Ents, t \in Tys, v \in 1..NVal : Holders(x, t) = {e} /\ go(<<"sno", e, t, v>>)
     \/ "despsys" \in OpNames_ /\ \E s \in Targets(x) : go(<<"despsys", s>>)
     \/ "rcdrop" \in OpNames_ /\ \E s \in RcSys : go(<<"rcdrop", s>>)
